@@ -203,11 +203,13 @@ def handleC15 (c : Case) : Verdict :=
           (fs.map findingKind).eraseDups)
   else
     let ops := (c.findAll "op").toList
-    let st := ops.foldl (stepOp c) {}
+    -- `sweep` cases start from a prepared repository (record group 0) instead of the empty one
+    let st0 : St := if c.stream == "sweep" then { repo := (readObs c "0").repo } else {}
+    let st := ops.foldl (stepOp c) st0
     match st.verdict with
     | some v => v
     | none =>
       let v := (c.find "hinit").map (·.getD 1 "2") |>.getD "2"
-      .agree st.nt (["hist", s!"v{v}", s!"ops{ops.length}"] ++ st.labels.eraseDups)
+      .agree st.nt ([c.stream, s!"v{v}", s!"ops{ops.length}"] ++ st.labels.eraseDups)
 
 def main : IO Unit := mainLoop handleC15
